@@ -13,6 +13,11 @@ RULE = ("is_prime: every n in [-5, 2^20) in the thorough tier (quick: [-5, 6000)
         "p*q around 1229^2, large prime cofactors; gcd/lcm on [0,12]^3 + signed/large tuples in both calling conventions, empty and "
         "single arguments; a case is distinct by its operation line; non-trivial = all")
 ASSUMPTIONS = [
+    "C16x (deprecated helpers, not anchored by any property): phi/carmichael equal Nat.totient / Mathlib's Carmichael function given "
+    "soundness of is_prime at a factorization cofactor > 1229; order_mod answers 2 instead of 1 for an UNREDUCED x = 1 (mod m), x != 1 "
+    "(e.g. order_mod(8, 7)) - proved as such (C16x.order_mod_spec), the search oracle therefore uses reduced arguments; "
+    "largest_factor_relatively_prime(0, b) never returns for |b| >= 2 (proved; the harness does not call it); "
+    "randrange_from_seed__truncate_bytes/_bits raise TypeError (ValueError for order <= 1) on every input (proved)",
     "psi_12 > 2^64 (Sorenson-Webster 2015: no composite below 3.18e23 is a strong pseudoprime to the first 12 prime bases) is a "
     "hypothesis of is_prime_exact_below_2_64_partial, not an axiom",
     "int(math.log(n, 2)) is a parameter of the model (lg); the harness records the value the real run saw and passes it to the model "
@@ -193,7 +198,8 @@ def gcd_cases(ctx):
     return cases
 
 
-LEANCHECK = ["Props.C16", "Proofs.NTGcd", "Proofs.NTTable", "Proofs.NTMR", "Proofs.NTPrime", "Proofs.NTNext", "Proofs.NTFact"]
+EXTRA_PROPS = ["C16x"]   # the deprecated helpers nobody anchors (Model/NumberTheoryExtra.lean)
+LEANCHECK = ["Proofs.NTExtra", "Proofs.NTExtraOrder", "Proofs.NTExtraLambda", "Proofs.NTExtraLfrp",  "Proofs.NTGcd", "Proofs.NTTable", "Proofs.NTMR", "Proofs.NTPrime", "Proofs.NTNext", "Proofs.NTFact"]
 
 
 def dead_gcd2():
@@ -261,6 +267,7 @@ def correspond(ctx):
             c.add("lcm2 %d %d" % tuple(t), lambda: str(nt.lcm2(*t)), tag)
     c.add("smallprimes", lambda: fmt_list(nt.smallprimes), "table")
     c.run()
+    correspond_extra(ctx, nt)
 
 
 # ------------------------------------------------------------------------------------------------
@@ -374,6 +381,158 @@ def search(ctx):
             if len(ctx.violations) >= 5:
                 return
     ctx.cov["search_evaluations"] = n_eval
+    search_extra(ctx, nt)
+
+
+# ------------------------------------------------------------------------------------------------
+# C16x: deprecated helpers (numbertheory.modular_exp, phi, carmichael*, order_mod, largest_factor_relatively_prime,
+# kinda_order_mod; ecdsa.int_to_string / string_to_int / digest_integer; util.randrange_from_seed__truncate_*)
+def lfrp_diverges(a, b):
+    """largest_factor_relatively_prime(a, b) does not terminate exactly for a == 0 and |b| >= 2"""
+    return a == 0 and abs(b) >= 2
+
+
+def correspond_extra(ctx, nt):
+    import hashlib, warnings
+    from ecdsa import ecdsa as ec, util
+    warnings.simplefilter("ignore")
+    rng = ctx.rng
+    c = Corr(ctx, "extra")
+
+    def add_raw(line, out, tag):
+        c.lines.append(line); c.impl.append(out); c.tags.append(tag)
+    # modular_exp (NegativeExponentError is not in the shared exception map: compared by name here)
+    for _ in range(150 if ctx.quick else 1500):
+        b = rng.randrange(-60, 60) if rng.random() < .7 else rng.getrandbits(90) * rng.choice([1, -1])
+        e = rng.choice([-3, -1, 0, 1, 2, 5, rng.getrandbits(8), rng.getrandbits(70)])
+        m = rng.choice([0, 1, -1, 2, 7, -7, 97, 1000, -1000, 2 ** 61 - 1, rng.getrandbits(64) + 2])
+        try:
+            out = "ok %d" % nt.modular_exp(b, e, m)
+        except nt.NegativeExponentError:
+            out = "err NegativeExponentError"
+        except Exception as ex:  # noqa
+            out = "err " + common.errname(ex)
+        add_raw("modular_exp %d %d %d" % (b, e, m), out, "modular_exp")
+    # phi / carmichael
+    ns = list(range(-3, 400 if ctx.quick else 3000)) + [1229 * 1231, 1231 ** 2, 2 ** 20, 3 ** 9 * 8, 2 ** 31 - 1, 561, 1729, 2 ** 5 * 3 ** 3 * 7]
+    for n in ns:
+        add_lg(c, nt, "phi", n, lambda: nt.phi(n), str, "phi")
+        add_lg(c, nt, "carmichael", n, lambda: nt.carmichael(n), str, "carmichael")
+    for p in (2, 3, 5, 7, 1231, 0, 1, -3):
+        for a in range(1, 9):
+            c.add("carmichael_of_ppower %d %d" % (p, a), lambda: str(nt.carmichael_of_ppower((p, a))), "ppower")
+    c.add("carmichael_of_ppower 0 0", lambda: str(nt.carmichael_of_ppower((0, 0))), "ppower")
+    for _ in range(60 if ctx.quick else 600):
+        fl = [(rng.choice([2, 2, 3, 5, 7, 11, 13, 1231, 4, 9]), rng.randrange(1, 6)) for _ in range(rng.randrange(0, 5))]
+        c.add("carmichael_of_factorized " + fmt_pairs(fl), lambda: str(nt.carmichael_of_factorized(list(fl))), "factorized")
+    # order_mod / lfrp / kinda_order_mod
+    for m in list(range(-2, 60 if ctx.quick else 200)) + [2 ** 13 - 1, 10007]:
+        xs = range(-m - 2, 2 * m + 3) if abs(m) < 40 else [1, 2, 3, m - 1, m + 1, -1, 2 * m + 1, rng.randrange(1, m)]
+        for x in xs:
+            c.add("order_mod %d %d" % (x, m), lambda: str(nt.order_mod(x, m)), "order_mod")
+    for a in list(range(-40, 120)) + [2 ** 40, 2 ** 10 * 3 ** 5 * 7 ** 2, 30030, -30030]:
+        for b in list(range(-6, 31)) + [2 ** 20, 210, -210]:
+            if lfrp_diverges(a, b):
+                add_raw("lfrp %d %d" % (a, b), "err Other", "lfrp.diverges")     # the real call would not return
+                continue
+            c.add("lfrp %d %d" % (a, b), lambda: str(nt.largest_factor_relatively_prime(a, b)), "lfrp")
+    for m in list(range(-3, 80)) + [2 ** 12 * 45, 10 ** 6]:
+        for x in (-3, -1, 0, 1, 2, 3, 5, 6, 10, 12):
+            if lfrp_diverges(m, x):
+                add_raw("kinda_order_mod %d %d" % (x, m), "err Other", "kinda.diverges")
+                continue
+            c.add("kinda_order_mod %d %d" % (x, m), lambda: str(nt.kinda_order_mod(x, m)), "kinda_order_mod")
+    # ecdsa.int_to_string / string_to_int / digest_integer
+    for x in list(range(-2, 300)) + [256 ** k + d for k in (1, 2, 3, 8, 20) for d in (-1, 0, 1)] + [rng.getrandbits(rng.choice([9, 64, 200])) for _ in range(40)]:
+        c.add("int_to_string %d" % x, lambda: common.hx(ec.int_to_string(x)), "int_to_string")
+        if x >= 0:
+            dg = hashlib.sha1(ec.int_to_string(x)).digest()
+            c.add("digest_integer %d %s" % (x, common.hx(dg)), lambda: str(ec.digest_integer(x)), "digest_integer")
+    c.add("digest_integer -1 x", lambda: str(ec.digest_integer(-1)), "digest_integer")
+    for _ in range(60):
+        bs = bytes(rng.getrandbits(8) for _ in range(rng.randrange(0, 12)))
+        if rng.random() < .3:
+            bs = b"\x00" * rng.randrange(1, 3) + bs
+        c.add("string_to_int " + common.hx(bs), lambda: str(ec.string_to_int(bs)), "string_to_int")
+    # util.randrange_from_seed__truncate_bytes / _bits: TypeError on Python 3 (ValueError for order <= 1)
+    from ecdsa.curves import curves
+    orders = [-5, 0, 1, 2, 3, 4, 255, 256, 257, 65537, 2 ** 64, 2 ** 64 + 13] + [cv.order for cv in curves]
+    for order in orders:
+        for seed in (b"", b"seed", bytes(rng.getrandbits(8) for _ in range(32))):
+            dg = hashlib.sha256(seed).digest()
+            bits = int(math.log(order - 1, 2) + 1) if order > 1 else 0
+            for fn, op in ((util.randrange_from_seed__truncate_bytes, "rfs_truncate_bytes"), (util.randrange_from_seed__truncate_bits, "rfs_truncate_bits")):
+                c.add("%s %s %d %s %d" % (op, common.hx(seed), order, common.hx(dg), bits), lambda: str(fn(seed, order)), op)
+    c.run()
+
+
+def ref_totient(n):
+    return sum(1 for k in range(1, n + 1) if math.gcd(k, n) == 1)
+
+
+def ref_order(x, m):
+    z, k = x % m, 1
+    while z != 1:
+        z = z * x % m
+        k += 1
+    return k
+
+
+def search_extra(ctx, nt):
+    """the documented meaning of the deprecated helpers on their documented domains (not part of property C16's text;
+    a disagreement is still reported as a failing input of C16x)"""
+    import warnings
+    from ecdsa import ecdsa as ec, util
+    warnings.simplefilter("ignore")
+
+    def viol(fn, args, got, exp):
+        ctx.violation({"input": {"fn": fn, "args": list(args)}, "observed": got, "expected": exp})
+    n_eval = 0
+    for n in range(1, 300 if ctx.quick else 1500):
+        n_eval += 1
+        want = ref_totient(n) if n >= 3 else 1
+        if nt.phi(n) != want:
+            viol("phi", (n,), nt.phi(n), want)
+        units = [k for k in range(1, max(n, 2)) if math.gcd(k, n) == 1] or [1]
+        lam = 1
+        for u in units:
+            lam = lam * ref_order(u, n) // math.gcd(lam, ref_order(u, n)) if n > 1 else 1
+        if nt.carmichael(n) != lam:
+            viol("carmichael", (n,), nt.carmichael(n), lam)
+    for m in range(2, 60 if ctx.quick else 150):
+        for x in range(0, m):                      # reduced arguments: the documented domain
+            if math.gcd(x, m) != 1:
+                continue
+            n_eval += 1
+            if nt.order_mod(x, m) != ref_order(x, m):
+                viol("order_mod", (x, m), nt.order_mod(x, m), ref_order(x, m))
+    for a in range(1, 120):
+        for b in range(0, 31):
+            n_eval += 1
+            want = max(d for d in range(1, a + 1) if a % d == 0 and math.gcd(d, b) == 1)
+            got = nt.largest_factor_relatively_prime(a, b)
+            if got != want:
+                viol("largest_factor_relatively_prime", (a, b), got, want)
+    for x in list(range(0, 600)) + [2 ** 64, 2 ** 200 + 17]:
+        n_eval += 1
+        s = ec.int_to_string(x)
+        want = x.to_bytes(max(1, (x.bit_length() + 7) // 8), "big")
+        if s != want or ec.string_to_int(s) != x:
+            viol("int_to_string", (x,), s.hex(), want.hex())
+    for b, e, m in [(3, 4, 5), (-7, 13, 11), (2, 0, 1), (5, 3, -7), (10 ** 20, 10 ** 18 + 9, 2 ** 61 - 1)]:
+        n_eval += 1
+        if nt.modular_exp(b, e, m) != pow(b, e, m):
+            viol("modular_exp", (b, e, m), nt.modular_exp(b, e, m), pow(b, e, m))
+    # observation (DESIGN section 2, outside the anchored scope): the truncate_* derivations never return on Python 3
+    for order in (2, 115, 2 ** 64 + 13):
+        for fn in (util.randrange_from_seed__truncate_bytes, util.randrange_from_seed__truncate_bits):
+            n_eval += 1
+            try:
+                fn(b"seed", order)
+                ctx.notes.append("randrange_from_seed__truncate_* returned on this interpreter: the TypeError observation no longer holds")
+            except TypeError:
+                pass
+    ctx.hist("search", "extra", n_eval)
 
 
 def replay(rec):
@@ -390,4 +549,13 @@ def replay(rec):
         return check_fact(nt, int(i["n"])) is not None
     if fn in ("gcd", "lcm"):
         return bool(check_gcd_lcm(nt, tuple(int(x) for x in i["args"])))
+    if fn in ("phi", "carmichael", "order_mod", "largest_factor_relatively_prime", "int_to_string", "modular_exp"):
+        class _C(object):
+            violations, notes = [], []
+            quick = True
+            def violation(self, r): self.violations.append(r)
+            def hist(self, *a): pass
+        cx = _C()
+        search_extra(cx, nt)
+        return any(v["input"] == i for v in cx.violations)
     return True
